@@ -87,3 +87,13 @@ Fixpoint json_spec (scan : bytes -> scan_res) (fuel : nat) (t : tail_t) (d : byt
   end.
 Definition json_expected (scan : bytes -> scan_res) (t : tail_t) (d : bytes) : list bytes * jfinal :=
   json_spec scan (S (length d)) t d.
+
+(* ---------- the two documented limits of the runner ----------
+   client_runner.go: "maxClientResponseSize = 16 * 1024 * 1024 // 16 MB" for what a client under test
+   writes; server_runner.go: "maxServerResponseSize = 1024 * 1024 // 1 MB" for the one response of a
+   server under test.  Written here from the documentation, independent of the regenerated constants. *)
+Definition documented_limit (r : reader) : N :=
+  match r with
+  | ReadsClientOutput => 16 * 1024 * 1024
+  | ReadsServerResponse => 1024 * 1024
+  end.
